@@ -727,7 +727,10 @@ def _print_atoms(atoms, c, p, vf, objs=None, log=None, variant="identity"):
                 continue
             tail = c.prev_text_tail.get(a["i"])
             last = None if tail is None else tail.rsplit("\n", 1)[-1]
-            if tail is None or "\n" not in tail or last.strip(" \t") != "":
+            if a["i"] == 1 or (a["i"] == 2 and tail is not None and tail.strip(" \t") == ""):
+                # the element starts on the first line of the template, after nothing but indentation
+                segs.append("\n" + (tail or ""))
+            elif tail is None or "\n" not in tail or last.strip(" \t") != "":
                 # not "an ordinary element that starts on its own line": unconstrained
                 segs.append(re.compile(r"\s*"))
             else:
